@@ -96,9 +96,13 @@ class Case:
     """One tool invocation.  files: [(name in workdir, sample in tests/data)], targets: the names the tool is
     asked to process, in order; opts: options before the targets; pair: mid3cp-style (all targets are one unit)."""
 
-    def __init__(self, cid, tool, sub, files, opts, targets, pair=False, stages=None, quick=True):
+    def __init__(self, cid, tool, sub, files, opts, targets, pair=False, stages=None, quick=True, damage=None):
         self.id, self.tool, self.sub, self.files, self.opts, self.targets = cid, tool, sub, files, opts, targets
         self.pair, self.custom_stages, self.quick = pair, stages, quick
+        # damage: {file name: kind} -- the copy of the sample is damaged so that the tool's per-file work on it raises
+        # part-way (FAILING INPUT dimension); such an invocation is signalled over its first file's unit only
+        self.damage = damage or {}
+        self.failing = bool(damage)
 
     def argv(self, targets=None):
         return [self.tool] + list(self.opts) + list(self.targets if targets is None else targets)
@@ -179,7 +183,27 @@ def make_cases(rng, thorough=True):
                   ["--write-v1", "-x", "TPE1"], ["src.mp3", "dst.mp3"], pair=True, quick=False))
     C.append(Case("moggsplit.m3u", "moggsplit", "main --m3u", [("m1.spx", "multiplexed.spx"), ("m2.ogg", "empty.ogg")],
                   ["--m3u", "--extension", "out"], ["m1.spx", "m2.ogg"], quick=False))
+    # failing inputs: per tool one invocation whose first file makes the per-file work raise part-way, then a healthy file
+    C.append(Case("moggsplit.bad-first", "moggsplit", "main, damaged Ogg page in the first input", [("m1.spx", "multiplexed.spx"), ("m2.ogg", "empty.ogg")],
+                  [], ["m1.spx", "m2.ogg"], damage={"m1.spx": "oggpage"}))
+    C.append(Case("mid3v2.bad-first", "mid3v2", "write_files, unsupported tag version in the first file", [("a.mp3", "silence-44-s.mp3"), ("b.mp3", "vbri.mp3")],
+                  ["-t", title], ["a.mp3", "b.mp3"], damage={"a.mp3": "id3version"}))
+    C.append(Case("mid3iconv.bad-first", "mid3iconv", "update, unsupported tag version in the first file", [("a.mp3", "silence-44-s.mp3"), ("b.mp3", "vbri.mp3")],
+                  ["-e", "latin1"], ["a.mp3", "b.mp3"], damage={"a.mp3": "id3version"}))
+    C.append(Case("mid3cp.bad-dst", "mid3cp", "copy, unsupported tag version in the destination", [("src.mp3", "id3v1v2-combined.mp3"), ("dst.mp3", "silence-44-s.mp3")],
+                  [], ["src.mp3", "dst.mp3"], pair=True, damage={"dst.mp3": "id3version"}))
     return C
+
+
+def damaged(data, kind):
+    if kind == "oggpage":                # the capture pattern of a page in the middle: mutagen.ogg.error after some pages were written
+        pos = [m.start() for m in re.finditer(b"OggS", data)]
+        k = pos[len(pos) // 2]
+        return data[:k] + b"XggS" + data[k + 4:]
+    if kind == "id3version":             # ID3v2.9: load / save raise ID3UnsupportedVersionError after reading the header
+        assert data[:3] == b"ID3"
+        return data[:3] + b"\x09" + data[4:]
+    raise ValueError(kind)
 
 
 # ------------------------------------------------------------------------------------------------
@@ -397,6 +421,11 @@ def prepare(case, wd):
     os.makedirs(wd)
     for name, sample in case.files:
         shutil.copyfile(os.path.join(data_dir(), sample), os.path.join(wd, name))
+        if name in case.damage:
+            with REAL_OPEN(os.path.join(wd, name), "rb") as f:
+                data = f.read()
+            with REAL_OPEN(os.path.join(wd, name), "wb") as f:
+                f.write(damaged(data, case.damage[name]))
 
 
 # process environments a tool may find itself in when the signal arrives (besides "plain": healthy captured
@@ -473,6 +502,8 @@ def child_body(job):
                 rc = mod.entry_point()
             except SystemExit as e:
                 rc = "SystemExit:%r" % (e.code,)
+            except Exception as e:              # the tool died of its input (failing-input invocations)
+                rc = "Crashed:%s" % type(e).__name__
             res.setdefault("rcs", []).append(repr(rc))
         res["snap"] = snapshot(wd)
         return res
@@ -642,15 +673,17 @@ def build_plan(ctx, case, linemode, par, envs=()):
     if u1["trace"] != u2["trace"]:
         P.problems.append("undisturbed trace is not deterministic")
         P.weak = True
-    if u1["outcome"] != "Finished" or "S" in P.prog:
+    P.und_outcome, P.und_exc = u1["outcome"], u1.get("exc")
+    if (u1["outcome"], u1.get("exc"), u1["code"]) != (u2["outcome"], u2.get("exc"), u2["code"]):
+        P.problems.append("undisturbed run does not end the same way twice")
+        P.fatal = True
+    if (u1["outcome"] != "Finished" and not case.failing) or "S" in P.prog:     # a failing input may make the tool die by itself
         P.problems.append("undisturbed run ended %s %s" % (u1["outcome"], u1["code"]))
         P.fatal = True
     if u1["snap"] != P.stage_snaps[-1] or u2["snap"] != P.stage_snaps[-1]:
         P.problems.append("instrumented undisturbed run differs from the uninstrumented run (recording changes behaviour)")
         P.fatal = True
-    for j in range(1, len(P.stage_snaps)):
-        if P.stage_snaps[j] == P.stage_snaps[j - 1]:
-            P.problems.append("stage %d does not change any byte: sample/sub-command cannot show a cut" % j)
+    P.ended_in_unit = None
     # units: maximal runs of file operations belonging to the same target
     groups = []
     for t in P.prog:
@@ -671,6 +704,14 @@ def build_plan(ctx, case, linemode, par, envs=()):
         spans[-1][1] = i
         P.unit_of_event[i] = len(spans)
     P.spans = spans
+    if case.failing and P.und_outcome != "Finished" and 0 < len(spans) < len(P.stage_snaps) - 1 and \
+            all(sn == P.stage_snaps[len(spans)] for sn in P.stage_snaps[len(spans):]):
+        # the tool dies of the failing input by itself: the later files are never touched, with or without a signal
+        P.ended_in_unit = len(spans)
+        P.stage_snaps = P.stage_snaps[:len(spans) + 1]
+    for j in range(1, len(P.stage_snaps)):
+        if P.stage_snaps[j] == P.stage_snaps[j - 1] and not (case.failing and (j == 1 or case.pair)):
+            P.problems.append("stage %d does not change any byte: sample/sub-command cannot show a cut" % j)
     if len(spans) != len(P.stage_snaps) - 1:
         P.problems.append("run has %d per-file units, expected %d" % (len(spans), len(P.stage_snaps) - 1))
         P.weak = True
@@ -796,6 +837,11 @@ def check_run(ctx, P, signame, t, r, mode, env="plain"):
     if env in UNWRITABLE and r["outcome"] == "Crashed":
         aborted = True
         ctx.count("abort-report-unwritable")
+    # a failing input of which the tool dies by itself: dying the same death, having done everything the undisturbed run
+    # does, is "as if no signal had arrived" (the tool stops, failing, and touches no later file)
+    if P.und_outcome == "Crashed" and r["outcome"] == "Crashed" and r.get("exc") == P.und_exc and stripped == P.prog:
+        aborted = True
+        ctx.count("ended-as-the-undisturbed-failure")
     if not aborted and not (died and (weak or inunit is None)):
         ok = viol("run did not end in an aborting SystemExit after the signal (ended %s)" % ended, handler_ran=handled)
     if not weak:
@@ -859,16 +905,21 @@ def check_case(ctx, case, schedule, linemode, par, deadline=None):
     ctx.notes.setdefault("events_per_run", {})["%s/%s" % (case.id, mode)] = len(P.prog)
     ctx.notes.setdefault("mutagen_path", P.mutagen)
     if use_model:
-        prot = ctx.model.call("sig_protected", *P.mprog)
+        mp = P.mprog
+        if P.und_outcome == "Crashed" and mp and mp[-1] == "X":
+            mp = mp[:-1] + ["L"]          # the file operations before the tool's own death must lie inside the block all the same
+        prot = ctx.model.call("sig_protected", *mp)
         ctx.corr_cases += 1
         if prot != "ok 1":
-            k = first_unprotected(P.mprog)
+            k = first_unprotected(mp)
             ctx.disagree("c20.tool", "%s %s: recorded trace is NOT protected (%s): event %d %s lies outside SignalHandler.block()" %
                          (case.id, mode, prot, k, P.prog[k] if k is not None else "?"), {"case": case.id, "mode": mode})
         und = parse_run(ctx.model.call("sig_run", *P.mprog))
-        if und is None or und["out"] != "Finished" or und["steps"] != len(P.prog):
+        if und is None or und["out"] != P.und_outcome or und["steps"] != len(P.prog):
             ctx.disagree("c20.tool", "%s %s: model does not finish the undisturbed program: %s" % (case.id, mode, und), {"case": case.id})
     todo = schedule(len(P.prog), case)
+    if case.failing and P.spans:                 # every event of the failing file's unit (and the block boundaries around it)
+        todo = [x for x in todo if x[1] <= P.spans[0][1] + 2]
     done = 0
     nviol0 = len(ctx.violations)
     # healthy environment first; the other environments only add information where the tool is fine in the healthy one
